@@ -13,6 +13,7 @@ import DS.Props.C16Static.Wod
 import DS.Props.C16Static.Fate
 import DS.Props.C16Static.Dc
 import DS.Props.C16Static.Stmts
+import DS.Props.C16Static.Ndice
 
 namespace DS.Props.C16
 open DS.Peg DS.Gen.Opcodes
@@ -81,5 +82,15 @@ theorem stmts_stay_off (input : Array Nat) (maxCnt : Nat) (custom : Nat → Nat)
     (parseTop (envOf input maxCnt custom) cfg fuel).1.switched = false →
     ∀ op ∈ (parseTop (envOf input maxCnt custom) cfg fuel).1.trace, stmtsGate.gated op = false :=
   stays_off stmtsGate static_stmts input maxCnt custom cfg fuel h
+
+/-- sides left out: with DisableNDice on — set by the host, or by the st command for its bare values — `2d` never compiles a default-sides
+    expression (the flag test stands in front of the consuming alternatives, not inside a look-ahead whose result the packrat memo keeps) -/
+theorem ndice_stays_off (input : Array Nat) (maxCnt : Nat) (custom : Nat → Nat) (cfg : Flags) (fuel : Nat) (h : cfg.disableNDice = true) :
+    (parseTop (envOf input maxCnt custom) cfg fuel).1.switched = false →
+    ∀ op ∈ (parseTop (envOf input maxCnt custom) cfg fuel).1.trace, op ≠ op_typePushDefaultExpr := by
+  intro hsw op hop
+  have := stays_off ndiceGate static_ndice input maxCnt custom cfg fuel h hsw op hop
+  simp only [ndiceGate, mkGate, List.contains_cons, List.contains_nil, Bool.or_false, beq_eq_false_iff_ne] at this
+  exact this
 
 end DS.Props.C16
